@@ -23,6 +23,11 @@ HIST = {
  "C08-c": "missed at first -> '#big' cases with one giant run inside irregular keys (detected on 5 of 6 seeds in the quick tier: the trigger is a narrow bit-width window)",
  "C10-c": "missed at first (vector length multiple of 64 has probability 1/64 per dataset) -> '#sweep' cases: ~70 prefixes of one array, a few keys apart, pass through all residues",
  "C19-c": "caught by one assignment-chain / copy case in the quick tier (crash); the trigger is a count that is an exact multiple of 4096",
+ "C04-c": "missed at first (no segment kept > 2^16 hull vertices) -> slow_convex_long_segment family",
+ "C12-c": "missed at first (output files were always fresh) -> half of the cases pre-populate the output names with longer files; file length is compared with file_size_in_bytes()",
+ "C16-c": "caught by the per-thread result digests (ThreadSanitizer reports nothing: all shared accesses are atomic)",
+ "C18-c": "missed by C18 at first (needs > 2^21 pairs), reported by C05/C06 all along -> giant C histories (2.1-2.3 M pairs, runs of erased keys, bounded walks)",
+ "C20-c": "missed at first (coordinates were always supplied as value_type) -> input ranges of a wider integer type",
  "C01-c": "the agent measured ~1 failing key in 10^8 random keys; the band-tight families (staircase, nested_staircase) produce hundreds of failing cases",
 }
 N = json.load(open('/verif/seeded/needs.json'))
